@@ -57,6 +57,8 @@ var HTMLFull = append(append([]string{}, HTMLBytes...), []string{
 	"&#60;", "&#x3c;", "&#060", "&#61;", "&#x3D;", "&lt;", "&#62;", "&#34;", "&#39;", "&#x60;", "&#47;",
 	// named references and element names a "more HTML5-conformant" change would start to treat specially
 	"&NewLine;", "&Tab;", "&colon;", "plaintext", "textarea",
+	// other alphabets' spellings of the markup metacharacters (text for this tokenizer)
+	"%3C", "%3E", "%3D", "%22", "%27", "%3c", "+ADw-", "+AD4-", "+AD0-", "\\u003c", "\\x3c", "%u003c",
 	// non-ASCII letters that Go's strings.ToUpper folds onto ASCII (U+017F -> S, U+0131 -> I) and other multi-byte letters
 	"\xc5\xbf", "\xc4\xb1", "\xc5\xbfcript", "l\xc4\xb1nk", "x\xc5\xbf\xc5\xbf", "ba\xc5\xbfe", "\xc5\xbftyle", "on\xc5\xbfubmit", "\xc4\xb1frame", "\xe2\x84\xaa", "\xc3\x9f", "\xc4\xb0",
 	"iframe", "embed", "object", "meta", "link", "base", "applet", "frame", "xss", "noscript", "isindex", "comment", "listener", "handler", "vmlframe", "frameset",
